@@ -57,8 +57,8 @@ CHECKS = {
              "segment table (lines >= 2, 1e-9), delayed copies (property's own tolerances), sinusoids with Gaussian-integer "
              "amplitudes (1e-9). FDD / EFDD / pLSCF results carry SD_est(data, data) with the run parameters.",
         ref="DESIGN.md §4.7, §5 C13, §6",
-        note="Trusted: TLC, numpy FFT for the Welch reference. Not checked: 'integrates over frequency to the mean square' "
-             "(statistical approximation, no exact abstract counterpart).",
+        note="Trusted: TLC, numpy FFT for the Welch reference. 'Integrates over frequency to the mean square' is checked "
+             "statistically only (40 segments of white noise, allowance 25 %); the exact scaling is decided by the Welch clause.",
         technique="TLC model checking of Spectra.tla + replay into SD_est (impulse probing, Welch reference on the spec's segments)",
     ),
     "C19": dict(
@@ -73,7 +73,7 @@ CHECKS = {
         ref="DESIGN.md §4.8, §5 C19, §6",
         note="Trusted: TLC, pandas DataFrames shaped as read_excel(sheet_name=None, index_col=0) returns them (openpyxl is "
              "not installed offline: reading .xlsx itself is outside the claim), matplotlib 3D artist accessors. Name forms "
-             "and (geo1) the array forms of the direction table and of the optional tables are varied.",
+             "and the array forms of the direction table (geo1) and of the optional tables (geo1, geo2) are varied.",
         technique="TLC model checking of Geo.tla + replay of every table set through the validation functions, def_geo* and the mode plots",
     ),
     "C14": dict(
@@ -208,8 +208,9 @@ CHECKS = {
              "PickInBand, PickIsArgmax, SharpIsUnique, SomeAnswer, ValuesNonIncreasing; every case is handed to FDD_mpe, "
              "FDD.mpe, FDD_MS.mpe (returned line admissible, shape = normalised stored first vector of that line); "
              "permuted diagonal spectral matrices through SD_svalsvec; sinusoid records with Gaussian-integer amplitudes "
-             "through FDD / FSDD (first stage) / FDD_MS setups (line, conjugation convention, normalisation, faithful "
-             "decomposition at every line).",
+             "through FDD / EFDD / FSDD / FDD_MS / EFDD_MS setups (first stage observed at fdd.FDD_mpe: line, conjugation "
+             "convention, normalisation, faithful decomposition at every line); two-tone records (a four times stronger tone "
+             "inside DF2 but outside DF1) pin the first stage of EFDD / FSDD / EFDD_MS to the band DF1.",
         ref="DESIGN.md §4.7, §5 C06",
         note="Trusted: TLC, numpy MAC. A line within one spacing of a band limit may or may not count as in the band. "
              "One listed known finding (Nyquist line never a candidate when the band reaches the end of the grid).",
@@ -268,7 +269,8 @@ CHECKS = {
              "cells and hide on/off and yields the exact marker cell sets; each case is drawn on the Agg backend by "
              "stab_plot, cluster_plot, SSIcov/pLSCF plot_stab/plot_cluster (with and without covariance error bars) "
              "and the marker artists are projected onto coordinate multisets (order coordinate = value accepted by "
-             "extraction). Fdd.tla action DrawCMIF gives the exact dB ratios of the singular-value curves.",
+             "extraction). Fdd.tla action DrawCMIF gives the exact dB ratios of the singular-value curves; every table is drawn "
+             "without frequency limits and with a window that leaves the peak of the first singular value outside.",
         ref="DESIGN.md §4.5, §5 C20",
         note="Trusted: TLC, matplotlib artist accessors. Error-bar caps / LineCollections are not markers.",
         technique="TLC model checking of Poles.tla (Draw) / Fdd.tla (DrawCMIF) + replay through the plot functions and methods",
